@@ -24,6 +24,8 @@ import (
 	kubeapps "k8s.io/api/apps/v1"
 	v1 "k8s.io/api/core/v1"
 	metav1 "k8s.io/apimachinery/pkg/apis/meta/v1"
+	apierrors "k8s.io/apimachinery/pkg/api/errors"
+	"k8s.io/apimachinery/pkg/runtime/schema"
 	"k8s.io/apimachinery/pkg/util/sets"
 	"k8s.io/client-go/tools/record"
 )
@@ -37,11 +39,21 @@ type rcCall struct {
 type rcControl struct {
 	calls  []rcCall
 	failAt int // 1-based index of the call that fails; 0 = none
+	kind   string
 }
 
 func (c *rcControl) do(verb string, pod *v1.Pod) error {
 	c.calls = append(c.calls, rcCall{verb, pod, rcOrd(pod)})
 	if c.failAt == len(c.calls) {
+		gr := schema.GroupResource{Resource: "pods"}
+		switch c.kind {
+		case "exists":
+			return apierrors.NewAlreadyExists(gr, pod.Name)
+		case "notfound":
+			return apierrors.NewNotFound(gr, pod.Name)
+		case "conflict":
+			return apierrors.NewConflict(gr, pod.Name, fmt.Errorf("injected"))
+		}
 		return fmt.Errorf("injected failure")
 	}
 	return nil
@@ -72,6 +84,8 @@ type rcCase struct {
 	Deleting        bool     `json:"deleting"`
 	RolloutInStatus bool     `json:"status_revisions_differ"`
 	Pods            []rcPod  `json:"pods"`
+	FailCall        int      `json:"failing_pod_call,omitempty"` // 1-based index of the pod create/update/delete that fails; 0 = none
+	FailKind        string   `json:"failure_kind,omitempty"`     // generic | exists | notfound | conflict
 	Failure         string   `json:"failure,omitempty"`
 	Calls           []string `json:"calls,omitempty"`
 }
@@ -177,7 +191,7 @@ func rcRun(c *rcCase) (status *apps.StatefulSetStatus, ctl *rcControl, snapshot 
 		}
 		snapshot = append(snapshot, pod)
 	}
-	ctl = &rcControl{}
+	ctl = &rcControl{failAt: c.FailCall, kind: c.FailKind}
 	ssc := &defaultStatefulSetControl{podControl: ctl, recorder: record.NewFakeRecorder(1000)}
 	func() {
 		defer func() {
@@ -195,6 +209,16 @@ func rcJudge(prop string, c *rcCase) string {
 	if panicked != nil {
 		if prop == "C15" {
 			return fmt.Sprintf("panic: %v", panicked)
+		}
+		return ""
+	}
+	if c.FailCall > 0 {
+		// only C09 injects failures: a pod write that failed must make the reconcile report failure
+		if len(ctl.calls) >= c.FailCall {
+			if err == nil {
+				f := ctl.calls[c.FailCall-1]
+				return fmt.Sprintf("pod %s of %s failed (%s) but the reconcile reported success", f.Verb, f.Pod.Name, c.FailKind)
+			}
 		}
 		return ""
 	}
@@ -426,6 +450,10 @@ func rcGen(rng *rand.Rand, prop string) *rcCase {
 		}
 	}
 	c.Deleting = rng.Intn(12) == 0
+	if prop == "C09" {
+		c.FailCall = 1 + rng.Intn(3)
+		c.FailKind = []string{"generic", "exists", "notfound", "conflict"}[rng.Intn(4)]
+	}
 	ordinals := []int{0, 1, 2, 3, 4, 5}
 	if rng.Intn(4) == 0 {
 		// a population that crosses ordinal 10 (two-digit ordinals sort differently as strings)
